@@ -252,7 +252,7 @@ class _Units:
     def const(self, e: ast.AST):
         return _const_value(self.run, self.em, e) if not (isinstance(e, ast.Name) and not self.em.has_const(e.id)) else None
 
-    def lin(self, e: ast.AST) -> dict | None:
+    def lin(self, e: ast.AST, _depth: int = 0) -> dict | None:
         if isinstance(e, ast.Constant) and isinstance(e.value, int) and not isinstance(e.value, bool):
             return {1: e.value}
         if isinstance(e, ast.UnaryOp) and isinstance(e.op, ast.USub):
@@ -262,6 +262,15 @@ class _Units:
             if self.em.has_const(e.id):
                 v = self.const(e)
                 return {1: v} if isinstance(v, int) and not isinstance(v, bool) else None
+            if e.id != "indent" and _depth < 4:
+                # a local every binding of which is the same linear expression of the level (`child_indent = indent + 1`)
+                defs = [a.value for a in walk_no_nested(self.fi.node) if isinstance(a, ast.Assign) and len(a.targets) == 1 and isinstance(a.targets[0], ast.Name) and a.targets[0].id == e.id]
+                params = {a.arg for a in self.fi.node.args.args}  # type: ignore[attr-defined]
+                if defs and e.id not in params:
+                    ls = [self.lin(d, _depth + 1) for d in defs]
+                    if ls[0] is not None and all(x == ls[0] for x in ls):
+                        return ls[0]
+                    return None
             return {e.id: 1, 1: 0}
         if isinstance(e, ast.BinOp) and isinstance(e.op, (ast.Add, ast.Sub)):
             a, b = self.lin(e.left), self.lin(e.right)
@@ -363,6 +372,8 @@ def _level_uses(run: Run, rule: str, em, fname: str, fi: FuncInfo) -> None:
             raise AnalysisError(f"{fname}: the nesting level is tested in `{_text(st.test)[:80]}` - a use of `indent` that is neither a callee's level argument nor part of an indentation string; two spaces per level is not decided for this function")
         if isinstance(st, (ast.Assign, ast.AnnAssign)) and st.value is not None and id(st) in judged:
             continue
+        if isinstance(st, ast.Assign) and len(st.targets) == 1 and isinstance(st.targets[0], ast.Name) and U.lin(st.value) is not None and "indent" in (U.lin(st.value) or {}):
+            continue  # a level alias; judged where it is used (as a callee's level argument or inside an indentation string)
         if isinstance(st, (ast.Assign, ast.AnnAssign)) and st.value is not None and U.units(st.value) is not None:
             judged.add(id(st))
             _judge_pad(run, rule, em, fname, st, U.units(st.value))
@@ -472,6 +483,12 @@ def check_indent(run: Run, rule: str = "R01.4") -> None:
                 want = {"indent + 1", "indent"}
             else:
                 want = {"indent"}
+            if arg is not None and has_indent and a not in want:
+                la = _Units(run, em, fi).lin(arg)
+                if la is not None:
+                    la = {k: v for k, v in la.items() if v != 0}
+                    a_norm = "indent" if la == {"indent": 1} else ("indent + 1" if la == {"indent": 1, 1: 1} else ("0" if not la else a))
+                    a = a_norm if a_norm in want or a_norm != a else a
             ok = a in want
             run.instance(rule, em.loc(n), f"{fname}: {n.func.id}(..., indent={a})" + (" for a child" if child_call else ""), ok=ok)
             if not ok:
